@@ -716,6 +716,7 @@ func init() {
 		Real: histReal, Stub: histStub,
 		Assumptions: []string{"a second MAIL inside a transaction and the placement of VRFY/NOOP are not judged", "'signalled by Reset' is judged as: at least one Reset between a transaction end and the next envelope callback, and before the next MAIL/RCPT/DATA/BDAT is answered (other commands may be answered first)"},
 		Required:    []string{"delivery_goroutine_slow_to_start", "stale_delivery_overlaps_next_transfer", "newsession_failed", "several_messages_in_one_history", "auth_exchange_with_334_inside_history", "backend_callback_slower_than_ReadTimeout", "backend_returns_early_with_message_unread", "chunk_or_message_refused_for_size_inside_history"},
+		Instr:       true,
 		QuickRuns:   250000, ThoroughRuns: 6000000,
 	})
 }
